@@ -160,7 +160,7 @@ class World:
     CELL = (2, 4)
 
     def __init__(self, fam: str, par: list[int], nc: int, wseed: int, geo: dict | None = None,
-                 dm: list[int] | None = None):
+                 dm: list[int] | None = None, fl: list[int] | None = None):
         from PIL import Image
         from term_image.image import ITerm2Image, KittyImage
 
@@ -188,22 +188,34 @@ class World:
         self.nodes: list = [None] * (self.n + 1)
         self.nodes[1] = self.base
         self.dm = list(dm) if dm else [0] * self.n
+        self.fl = list(fl) if fl else [0] * self.n
         self.metas: list = []
         for i in range(2, nc + 1):
             parent = self.nodes[par[i - 1]]
             name = f"C20{fam.capitalize()}{i}"
+            # fl: the class defines __len__ returning 0 -> its instances are falsy objects
+            body = {"__len__": lambda self: 0} if self.fl[i - 1] else {}
             if self.dm[i - 1]:
                 # class declared with a metaclass derived from its parent's metaclass
                 meta = type(f"{name}Meta", (type(parent),), {})
                 self.metas.append((meta, set(vars(meta))))
-                self.nodes[i] = meta(name, (parent,), {})
+                self.nodes[i] = meta(name, (parent,), body)
             else:
-                self.nodes[i] = type(parent)(name, (parent,), {})
+                self.nodes[i] = type(parent)(name, (parent,), body)
         for i in range(nc + 1, self.n + 1):
             self.nodes[i] = self._instance(par[i - 1])
+        for i in range(nc + 1, self.n + 1):
+            falsy = any(self.fl[c - 1] for c in self._chain(par[i - 1]))
+            if bool(self.nodes[i]) == falsy:
+                raise MachineryError(f"c20: instance {i} should be {'falsy' if falsy else 'truthy'}")
         self._created = {i: set(vars(self.nodes[i])) for i in range(2, self.n + 1)}
 
     # ----------------------------------------------------------------- helpers
+    def _chain(self, c: int):
+        while c:
+            yield c
+            c = self.par[c - 1]
+
     def is_class(self, n: int) -> bool:
         return n <= self.nc
 
